@@ -609,3 +609,58 @@ def rule_interlace_direction(ctx):
                              "its sibling" % (render(c)[:50], render(inil)[:25], render(outil)[:25], want))
     ctx.floor("ILDIR", 4, n, "(interlace conversions in the GR read/write routines)")
     return n
+
+
+def rule_interlace_shortcut(ctx):
+    """ILSHORT (C15, C09): GRIil_convert re-orders a buffer between pixel, line and component interlace.  Its only shortcut — copy
+    the buffer unchanged — is right exactly when input and output interlace are the same; for any two different schemes some
+    buffer shape (one pixel wide, one line high) still needs the components regrouped.  The condition that guards the plain copy
+    is evaluated with `inil != outil` and everything else unknown: it must come out false."""
+    from .codec import ast_walk
+    from .facts import kind, strip, walk, render, calls_in
+    from .rules_coders import _eval_guard
+    prog = ctx.prog
+    f = prog.func("GRIil_convert")
+    if f is None or not f.raw.get("ast"):
+        ctx.unrecognised("ILSHORT", "ILSHORT:GRIil_convert", "-", "GRIil_convert not found")
+        return 0
+    ps = [q[0] for q in f.params]
+    ils = [p for p, q in zip(ps, f.params) if "gr_interlace_t" in (q[1] if len(q) > 1 else "")]
+    scal = [q[0] for q in f.params if len(q) > 1 and q[1] in ("int32", "int", "intn") ]
+    ncomp = scal[0] if scal else None
+    guards = []
+
+    def vis(nd, st):
+        if nd[0] == "if":
+            arm = nd[2]
+            kids = arm[1] if arm[0] == "block" else [arm]
+            if kids and kids[0][0] == "s" and any(c[1] in ("memcpy", "memmove") for c in calls_in(kids[0][1], True)) and len(kids) == 1:
+                guards.append(nd)
+        return True
+
+    ast_walk(f.raw["ast"], vis)
+    n = 0
+    for g in guards:
+        n += 1
+        key = "ILSHORT:GRIil_convert#%d" % n
+        line = g[-3] if isinstance(g[-3], int) else f.line
+        if len(ils) != 2:
+            ctx.unrecognised("ILSHORT", key, f.where(line), "the two interlace parameters were not recognised")
+            continue
+
+        def val(leaf):
+            if kind(leaf) == "var" and leaf[1] == ils[0]:
+                return 0
+            if kind(leaf) == "var" and leaf[1] == ils[1]:
+                return 1
+            if kind(leaf) == "var" and leaf[1] == ncomp:
+                return 3  # with a single component every scheme is the same layout: the claim is about multi-component pixels
+            return None
+
+        v = _eval_guard(g[1], val)
+        if v == 0:
+            ctx.holds("ILSHORT", key, f.where(line), "the plain copy is taken only when `%s == %s` (`%s` is false for different interlaces whatever the buffer shape)" % (ils[0], ils[1], render(g[1])[:60]), nontrivial=True)
+        else:
+            ctx.violated("ILSHORT", key, f.where(line), "the guard `%s` of the plain copy can hold although `%s != %s`: a buffer that needs its components regrouped is returned unconverted" % (render(g[1])[:80], ils[0], ils[1]))
+    ctx.floor("ILSHORT", 1, n, "(plain-copy shortcuts in GRIil_convert)")
+    return n
